@@ -207,6 +207,11 @@ func (e *Exec) jsonConvert(srcT types.Type, v Value, dstT types.Type, cur Value)
 		if iv.T == nil {
 			return IfaceV{}
 		}
+		if e.marshalKind == "msgpack" {
+			// msgpack keeps the dynamic value (the harnesses use the kinds the decoder
+			// hands back unchanged: string, int64, float64, bool, []interface{}, map[string]interface{})
+			return IfaceV{T: iv.T, V: e.jsonConvert(iv.T, iv.V, iv.T, nil)}
+		}
 		e.ooe("json model: non-nil interface value of dynamic type %v", iv.T)
 	}
 	e.ooe("json model: unsupported target type %v", dstT)
@@ -283,9 +288,63 @@ func (e *Exec) jsonUnmarshal(data SliceV, target Value) Value {
 	return e.zero(errT)
 }
 
+// ---- msgpack (github.com/Basekick-Labs/msgpack/v6) on the same machinery ----
+// Marshal = deep snapshot in an opaque buffer; Unmarshal into a pointer whose element type
+// is identical to the marshalled value's type rebuilds it, any other target is a decode
+// error (the real decoder rejects an array into a map target and vice versa - the only
+// mismatches the encoded call sites rely on). Interface-typed values keep their dynamic
+// value. Raw msgpack bytes are out of the encoding.
+
+func (e *Exec) msgpackMarshal(v Value) SliceV {
+	e.marshalKind = "msgpack"
+	defer func() { e.marshalKind = "" }()
+	iv, ok := v.(IfaceV)
+	if !ok || iv.T == nil {
+		e.ooe("msgpack.Marshal of a nil interface")
+	}
+	snap := e.jsonConvert(iv.T, iv.V, iv.T, nil)
+	arr := e.newArrayLoc(types.Typ[types.Uint8], 1)
+	arr.Kids[0].V = &Opaque{What: "bytes produced by msgpack.Marshal (msgpack model)", Data: &jsonBlob{T: iv.T, V: snap}}
+	e.stubs["msgpack: Marshal = deep snapshot carried by an opaque buffer; Unmarshal rebuilds it into a target of the identical type and fails for any other target type; bytes never inspected"] = true
+	return SliceV{Arr: arr, Off: 0, Len: 1, Cap: 1}
+}
+
+func (e *Exec) msgpackUnmarshal(data SliceV, target Value) Value {
+	e.marshalKind = "msgpack"
+	defer func() { e.marshalKind = "" }()
+	errT := types.Universe.Lookup("error").Type()
+	blob := e.blobOf(data)
+	if blob == nil {
+		e.ooe("msgpack.Unmarshal of bytes not produced by msgpack.Marshal in this harness")
+	}
+	iv, ok := target.(IfaceV)
+	if !ok || iv.T == nil {
+		return e.errorValue("msgpack: Decode(nil)")
+	}
+	pt, ok := iv.T.Underlying().(*types.Pointer)
+	if !ok {
+		return e.errorValue("msgpack: Decode(non-pointer)")
+	}
+	p := iv.V.(Ptr)
+	if p.IsNil() || p.L == nil {
+		return e.errorValue("msgpack: Decode(nil pointer)")
+	}
+	if !types.Identical(blob.T, pt.Elem()) {
+		return e.errorValue("msgpack: invalid code for decoding into the target type")
+	}
+	e.store(p.L, e.jsonConvert(blob.T, blob.V, pt.Elem(), e.load(p.L)))
+	return e.zero(errT)
+}
+
 func init() {
 	extraIntrinsics = append(extraIntrinsics, func(w *World) {
 		errT := types.Universe.Lookup("error").Type()
+		w.reg("github.com/Basekick-Labs/msgpack/v6.Marshal", func(e *Exec, fn *ssa.Function, a []Value) Value {
+			return TupleV{e.msgpackMarshal(a[0]), e.zero(errT)}
+		})
+		w.reg("github.com/Basekick-Labs/msgpack/v6.Unmarshal", func(e *Exec, fn *ssa.Function, a []Value) Value {
+			return e.msgpackUnmarshal(a[0].(SliceV), a[1])
+		})
 		w.reg("encoding/json.Marshal", func(e *Exec, fn *ssa.Function, a []Value) Value {
 			return TupleV{e.jsonMarshal(a[0]), e.zero(errT)}
 		})
